@@ -1,7 +1,7 @@
 SPECIFICATION MCSpec
 CONSTANTS
-  Pool = {0, 1, 1023, 1024, 1025, 2047, 2048, 2049, 3000, 3071, 3072}
-  Sizes = {0, 1, 2, 1024, 1025, 1026, 2048, 2049, 2050, 3001, 3072, 3073}
+  Pool = {0, 1, 1023, 1024, 1025, 2047, 2048, 2049, 3071, 3072}
+  Sizes = {0, 1, 2, 1024, 1025, 1026, 2048, 2049, 2050, 3072, 3073}
   NBITS = 1024
   UseLoop = TRUE
   Proto = "code"
